@@ -184,6 +184,7 @@ SCOPE_LIB = """
 library: scp
 cxx_header: scp.hpp
 options:
+  wrap_python: true
   C_name_template: "{C_prefix}{C_name_scope}{tag}{underscore_name}{function_suffix}{template_suffix}"
 format:
   tag: t0_
@@ -205,6 +206,8 @@ declarations:
       - decl: void accum(int *arr +dimension(..), int n)
       - decl: enum Tint { PALE, DEEP = 4 }
     - decl: int other()
+    - decl: void put(int a)
+    - decl: void put(double a)
   - decl: int nsfunc(int n)
 - decl: int libfunc(int n)
 - block: True
@@ -248,6 +251,8 @@ def leaves(d):
            (blk["declarations"][2], ["lib", "ns", "cls", "blk", "fn3"]),
            (blk["declarations"][3], ["lib", "ns", "cls", "blk", "en"]),
            (cls["declarations"][2], ["lib", "ns", "cls"]),
+           (cls["declarations"][3], ["lib", "ns", "cls"]),
+           (cls["declarations"][4], ["lib", "ns", "cls"]),
            (ns["declarations"][1], ["lib", "ns"]),
            (d["declarations"][2], ["lib"]),
            (d["declarations"][3]["declarations"][0], ["lib"])]
@@ -795,7 +800,7 @@ def main():
         rep.inconc("identity test on a value this harness makes symbolic: " + ln)
     specs = [("harness.C14", "make_scope", {})]
     labels = ["util.Scope laws"]
-    for what in ("tag", "F_force_wrapper", "C_force_wrapper", "F_string_len_trim", "F_assumed_rank_max", "C_enum_member_template", "F_enum_member_template"):
+    for what in ("tag", "F_force_wrapper", "C_force_wrapper", "F_string_len_trim", "F_create_generic", "F_assumed_rank_max", "C_enum_member_template", "F_enum_member_template"):
         specs.append(("harness.C14", "make_scope_pipe", dict(what=what)))
         labels.append("pipeline scoping of %s" % what)
     for i in range(len(ATTR_SHAPES)):
@@ -857,7 +862,7 @@ def main():
                               "Library/Namespace/Class/Block/FunctionNode.__init__ and default_format; FunctionNode.clone",
                               "FunctionNode.__init__ attrs/fattrs merge; declast.Parser.attribute; generate.VerifyAttrs",
                               "shroud.main.main_with_args (--option, --language), create_wrapper"],
-        "bounds": {"scope_chain_depth": 4, "pipeline_levels": LEVELS, "scoped_fields": ["format field tag (referenced from C_name_template)", "F_force_wrapper", "C_force_wrapper", "F_string_len_trim", "F_assumed_rank_max (a distinct integer per level)", "C_enum_member_template / F_enum_member_template (a distinct template per level)"],
+        "bounds": {"scope_chain_depth": 4, "pipeline_levels": LEVELS, "scoped_fields": ["format field tag (referenced from C_name_template)", "F_force_wrapper", "C_force_wrapper", "F_string_len_trim", "F_create_generic", "F_assumed_rank_max (a distinct integer per level)", "C_enum_member_template / F_enum_member_template (a distinct template per level)"],
                    "attribute_shapes": [s["bare"] for s in ATTR_SHAPES], "command_line_options": [o[0] for o in CMD_OPTIONS]},
         "solver": {"name": "z3 " + z3.get_version_string(), "queries": total.stats.queries, "solver_s": round(total.stats.solver_s, 2)},
         "reachability_twin_ok": twin_ok,
